@@ -505,7 +505,12 @@ func (f *SexpFloat) SexpString(ps *PrintState) string {
 	if f.Scientific {
 		return strconv.FormatFloat(f.Val, 'e', -1, SexpFloatSize)
 	}
-	return strconv.FormatFloat(f.Val, 'f', -1, SexpFloatSize)
+	s := strconv.FormatFloat(f.Val, 'f', -1, SexpFloatSize)
+	if !strings.ContainsAny(s, ".IN") {
+		// a whole number: keep it a float when the text is read again
+		s += ".0"
+	}
+	return s
 }
 
 func (c *SexpChar) SexpString(ps *PrintState) string {
